@@ -6,6 +6,7 @@ pub mod esr;
 pub mod lex488;
 pub mod list;
 pub mod mnemonic;
+#[cfg(feature = "full")]
 pub mod path;
 pub mod resp;
 pub mod status;
